@@ -590,10 +590,16 @@ func (r *Request) reply(payload []byte) {
 
 func (r *Request) executeHandler() {
 	// Recover from panics inside handlers
+	returned := false
 	defer func() {
 		v := recover()
 		if v == nil {
-			return
+			if returned {
+				return
+			}
+			// A panic(nil), for which recover returns nil unless the program
+			// is built with go1.21 semantics or later.
+			v = errors.New("panic called with nil argument")
 		}
 
 		var str string
@@ -631,6 +637,12 @@ func (r *Request) executeHandler() {
 		r.s.errorf("Error handling request %s: %s\n\t%s", r.msg.Subject, str, string(debug.Stack()))
 	}()
 
+	r.callHandler()
+	returned = true
+}
+
+// callHandler calls the handler matching the request type.
+func (r *Request) callHandler() {
 	hs := r.h
 
 	switch r.rtype {
